@@ -1,6 +1,7 @@
 import MaddyVerif.Model.Queue
 import MaddyVerif.Model.QueueHop
 import MaddyVerif.Model.QueueRestart
+import MaddyVerif.Model.QueueErr
 /-!
 # C01 — every queued recipient ends in exactly one terminal outcome
 
@@ -1259,6 +1260,20 @@ theorem C01_exactly_one_outcome_with_restarts (maxTries : Nat) (k : Kind) (plans
   rw [h]
   exact ⟨rfl, C01_exactly_one_outcome maxTries k plans to hmt hnd hne⟩
 
+/-- Every accepted recipient is delivered or reported also when reads of its spool entry failed
+transiently (any number of times, before any attempts): an instance that cannot read an entry
+leaves it alone, so the history is one of `runR`'s. -/
+theorem C01_exactly_one_outcome_with_read_faults (maxTries : Nat) (k : Kind) (plans : Nat → Plan)
+    (to : List Addr) (restarts faults : Nat → Nat) (env : Env)
+    (hmt : 0 < maxTries) (hnd : to.Nodup) (hne : to ≠ []) (hw : env.wellFormed to) :
+    let res := runR maxTries k true env plans (withReadFaults restarts faults) maxTries 0 (accepted to)
+    res.2 = false ∧
+    (∀ r ∈ to, (commitCount r res.1 = 1 ∧ reportCount r res.1 = 0) ∨
+               (commitCount r res.1 = 0 ∧ reportCount r res.1 = 1)) ∧
+    (∀ r, r ∉ to → commitCount r res.1 = 0 ∧ reportCount r res.1 = 0) ∧
+    res.1.getLast? = some Ev.removed :=
+  C01_exactly_one_outcome_with_restarts maxTries k plans to (withReadFaults restarts faults) env hmt hnd hne hw
+
 /-! ### non-vacuity, and why the two hypotheses are there -/
 
 def demoRestarts : Nat → Nat := fun i => if i = 0 then 1 else if i = 1 then 2 else 0
@@ -1283,5 +1298,114 @@ part is not generated: the recipient is dropped without an outcome. -/
 example :
     let res := runR 1 .atomic true ⟨false, false, fun r => r = 3⟩ demoPlan (fun _ => 0) 1 0 (accepted [3])
     res.2 = false ∧ reportCount 3 res.1 = 0 ∧ commitCount 3 res.1 = 0 := by decide
+
+/-! ## the class of a failure: basic reply code or marker, never the enhanced status code
+
+`Model/QueueErr.lean`.  The plan letters of `Queue.run` are `QueueErr.cls` of the error the
+downstream returned; these theorems say what that class can depend on. -/
+section errclass
+open MaddyVerif.QueueErr
+
+theorem temporaryOf_eraseEnh (e : Err) : temporaryOf (eraseEnh e) = temporaryOf e := by
+  induction e with
+  | nil => rfl
+  | cons l t ih =>
+    cases l <;> simp_all [eraseEnh, temporaryOf]
+
+theorem cls_eraseEnh (e : Err) : cls (eraseEnh e) = cls e := by
+  simp [cls, temporaryOf_eraseEnh]
+
+/-- Two errors that differ only in their enhanced status codes get the same decision. -/
+theorem C01_retry_decision_ignores_enhanced_code (maxTries tries : Nat) (e e' : Err)
+    (h : eraseEnh e = eraseEnh e') :
+    retryDecision maxTries tries e = retryDecision maxTries tries e' := by
+  have : cls e = cls e' := by rw [← cls_eraseEnh e, ← cls_eraseEnh e', h]
+  simp [retryDecision, this]
+
+/-- … and so does the whole classification loop of `tryDelivery`: which recipients are re-queued,
+which are reported, and the attempt counters. -/
+theorem C01_classify_ignores_enhanced_code (maxTries : Nat) (errs errs' : Addr → Option Err)
+    (h : ∀ r, (errs r).map eraseEnh = (errs' r).map eraseEnh) (to : List Addr) (a : Acc) :
+    classify maxTries (fun r => (errs r).map cls) to a =
+      classify maxTries (fun r => (errs' r).map cls) to a := by
+  have hf : (fun r => (errs r).map cls) = (fun r => (errs' r).map cls) := by
+    funext r
+    have hr := h r
+    cases h1 : errs r with
+    | none => cases h2 : errs' r with
+      | none => rfl
+      | some y => simp [h1, h2] at hr
+    | some x => cases h2 : errs' r with
+      | none => simp [h1, h2] at hr
+      | some y =>
+        simp [h1, h2] at hr
+        simp [← cls_eraseEnh x, ← cls_eraseEnh y, hr]
+  rw [hf]
+
+/-- The basic reply code decides when the reply is the outermost classified layer. -/
+theorem C01_basic_code_decides (c : Nat) (enh : Enh) (rest : Err) :
+    cls (.smtp c enh :: rest) = (if c / 100 == 4 then Cls.temp else Cls.perm) ∧
+    cls (.plainSmtp c enh :: rest) = (if c / 100 == 4 then Cls.temp else Cls.perm) := by
+  constructor <;> simp only [cls, temporaryOf] <;> split <;> simp_all
+
+/-- … and the marker of `exterrors.WithTemporary` when it is. -/
+theorem C01_marker_decides (b : Bool) (rest : Err) :
+    cls (.marker b :: rest) = (if b then Cls.temp else Cls.perm) := by
+  cases b <;> simp [cls, temporaryOf]
+
+/-- Never re-attempted after a permanent failure: a recipient whose error is classified permanent
+(a 5yz reply, whatever enhanced code it carries) is reported in this attempt and not re-queued;
+one whose error is temporary or unclassified is re-queued iff attempts are left. -/
+theorem C01_permanent_reply_not_requeued (maxTries : Nat) (errs : Addr → Option Err)
+    (to : List Addr) (hnd : to.Nodup) (tries : Addr → Nat) (r : Addr) (hr : r ∈ to) (e : Err)
+    (he : errs r = some e) :
+    let a := classify maxTries (fun x => (errs x).map cls) to ⟨tries, [], []⟩
+    (r ∈ a.newR ↔ retryDecision maxTries (tries r) e = true) ∧
+    (r ∈ a.failedR ↔ retryDecision maxTries (tries r) e = false) := by
+  have hs := classify_spec maxTries (fun x => (errs x).map cls) to hnd ⟨tries, [], []⟩
+  simp only at hs
+  intro a
+  have h1 : a.newR = to.filter (willRetry maxTries (fun x => (errs x).map cls) tries) := by
+    simpa using hs.1
+  have h2 : a.failedR = to.filter (willFail maxTries (fun x => (errs x).map cls) tries) := by
+    simpa using hs.2.1
+  rw [h1, h2]
+  simp only [List.mem_filter, hr, true_and, willRetry, willFail, he, Option.map_some, retryDecision]
+  constructor
+  · simp [Nat.not_le]
+  · cases (cls e).retryable <;> simp
+
+/-- `toSMTPErr` never records a status a failure report cannot carry (`dsn.RecipientInfo.WriteTo`
+refuses a status without a class): whatever enhanced code came along, class 0 included. -/
+theorem C01_recorded_status_reportable (e : Err) : reportable (recorded e).2 = true := by
+  have hd : ∀ b : Bool, (if b then ((451 : Nat), ((4, 0, 0) : Enh)) else (554, (5, 0, 0))).2.1 ≠ 0 := by
+    intro b; cases b <;> decide
+  have hs : ∀ e : Err, (match firstSmtp e with
+      | some (c, x) => (c, if x.1 ≠ 0 then x else
+          (if (cls e).retryable then ((451 : Nat), ((4, 0, 0) : Enh)) else (554, (5, 0, 0))).2)
+      | none => (if (cls e).retryable then ((451 : Nat), ((4, 0, 0) : Enh)) else (554, (5, 0, 0)))).2.1 ≠ 0 := by
+    intro e
+    split
+    · rename_i c x _
+      by_cases hx : x.1 ≠ 0
+      · simp [hx]
+      · simp only [hx, ↓reduceIte]; exact hd _
+    · exact hd _
+  unfold recorded reportable
+  simp only [bne_iff_ne, ne_eq]
+  split
+  · rename_i c x rest
+    by_cases hx : x.1 ≠ 0
+    · simp [hx]
+    · simp only [hx, ↓reduceIte]; exact hs (Layer.plainSmtp c x :: rest)
+  · exact hs e
+
+/-- Non-vacuity: `550 4.2.2` is final at once, `451 5.1.1` is retried, `550 0.1.1` is recorded with
+the generic status; two errors that differ in the enhanced code only. -/
+example : retryDecision 3 0 [.smtp 550 (4, 2, 2)] = false ∧ retryDecision 3 0 [.fields, .smtp 451 (5, 1, 1)] = true
+    ∧ recorded [.smtp 550 (0, 1, 1)] = (550, (5, 0, 0)) ∧ recorded [.plainSmtp 451 (1, 1, 1)] = (451, (1, 1, 1))
+    ∧ eraseEnh [.marker true, .smtp 550 (9, 0, 0)] = eraseEnh [.marker true, .smtp 550 (5, 1, 1)] := by decide
+
+end errclass
 
 end MaddyVerif.C01
